@@ -13,9 +13,10 @@ import (
 
 func init() {
 	fw.Register(&fw.Property{
-		ID:     "C11",
-		Level:  "exploration",
-		Jitter: true,
+		ID:         "C11",
+		Level:      "exploration",
+		Jitter:     true,
+		RaceSample: true,
 		Rule: "SAM files (multi-record queries, insertions, deletions, skips, clips) with GenBank or GFF3 annotations; three observed runs of real code per case: R1 = sam variants; R2 = variants on each reference/query pair written by sam toPairAlign; R3 (queries without insertions) = variants on the reference plus the sam toMultiAlign --pad rows; options --append-snps, --start/--end, reference from a file or from the annotation; " +
 			"distinct non-trivial = distinct (annotation format, max records per query, has insertion, has deletion, window, append-snps, reference source) of cases with at least one mutation",
 		Assumptions: []string{"the un-padded toMultiAlign row is not used: its '-' flank convention is a different alignment from the one sam variants sees ('N' for uncovered positions)",
